@@ -274,4 +274,4 @@ Qed.
 
 (* vnaproperty_copy is a deep copy, whatever the destination held *)
 Theorem copy_abs dest src : wf src -> abs (copy dest src) = abs src.
-Proof. intros Hw. unfold copy. rewrite vdelete_dot. now apply dfs_copy_abs. Qed.
+Proof. intros Hw. unfold copy. now apply dfs_copy_abs. Qed.
